@@ -144,6 +144,8 @@ def snapshot(a):
 
 
 def main(ctx):
+    # every lattice part once more under FP traps + warnings-as-errors (clean on the unchanged tree, see DESIGN section 0)
+    ctx.envstrict_all = True
     import esutil as eu
     from esutil import coords as C, stat, numpy_util as nu, htm, sfile, recfile, wcsutil, integrate, cosmology
 
